@@ -1,5 +1,5 @@
 target('c12_queue', 'engines/comp/c12_queue.cpp',
-       quick=dict(cases=150000, size=120), thorough=dict(cases=3000000, size=200))
+       quick=dict(cases=900000, size=120), thorough=dict(cases=10000000, size=200))
 prop('C12', ['c12_queue'], 'comp',
      rule='rapidcheck generates a priority partition (24 instantiated compositions of 1..9 characteristics into 1..4 levels, '
           'single-entry levels in every position) and a sequence of queue_notification/queue_indication/dequeue/confirm/clear '
